@@ -32,7 +32,7 @@ class of the first theorem).  Mutants that emptied a non-presence container also
 records in the evidence `rule`) how many schemas contain each construct and how many cases fall into the class of each theorem.
 """
 import collections, json, os
-from vlib import treegen as tg
+from vlib import treegen as tg, paths
 from checks import validgen as vg
 from checks import validcomp as vc
 from checks.validcomp import COMP, NO_STATE, PRESENT, MULTI, OPER
@@ -81,7 +81,17 @@ def features(s):
                     if p.kind == "case" or (p.kind == "container" and p.presence):
                         f.add("unique-default-below-case-or-presence")
                     p = p.parent
+        if n.kind == "leaflist" and n.max > 0 and len(n.dflts) > n.max:
+            f.add("leaflist-more-defaults-than-max")
     return sorted(f)
+
+
+def f320_fixed():
+    """read off the C source: does the schema compiler compare the number of leaf-list defaults with max-elements (fixes/F320.diff)?"""
+    try:
+        return "number of default values" in open(os.path.join(paths.REPO, "src", "schema_compile_node.c")).read()
+    except OSError:
+        return False
 
 
 def classify(component, what, case):
@@ -90,6 +100,8 @@ def classify(component, what, case):
         return "F175"
     if law == "route-path" and case.get("route") in ("xml", "json") and case.get("unlinked"):
         return "F176"
+    if law in ("iff-rejected", "tag") and case.get("impl_kind") == "NoMax" and "leaflist-more-defaults-than-max" in feat:
+        return "F320"
     return None
 
 
@@ -102,6 +114,7 @@ def run(cx, nsch=None, nnest=None, nfam=None):
     nsch = cx.n(90, 500) if nsch is None else nsch
     per = cx.n(5, 20)
     schemas, cases = [], load_corpus(cx)
+    witness_f320(cx, cases)
     nnest = cx.n(30, 150) if nnest is None else nnest
     # directed families (validgen.FAMILIES): `nfam` schemas of each, one template per construct of the full schema language
     fams = [f for f in vg.FAMILIES if f[0] not in vg.DISABLED_FAMILIES]
@@ -144,6 +157,25 @@ def run(cx, nsch=None, nnest=None, nfam=None):
         process(cx, all_schemas, cases[lo:lo + step], lo)
     classes(cx, origin)
     operations(cx, cases)
+
+
+def witness_f320(cx, cases):
+    """F320 (a leaf-list with more default values than max-elements), replayed on every run.  Unrepaired compiler: the witness is one
+    more case — libyang and the model reject the empty presence container (NoMax on an implicit node), the specification is satisfied,
+    the law `iff` fails and `classify` names the finding.  Repaired compiler (fixes/F320.diff): the module must be refused."""
+    s, t = vg.witness_f320()
+    s._origin = "witness-F320"
+    if not f320_fixed():
+        cx.rule("F320 witness (leaf-list with 2 defaults and max-elements 1 in a presence container, instance = the empty container): "
+                "validated like every other case; the compiler of this source tree does not compare the two numbers")
+        cases.append(Case(s, t, None, None, cx.sub_rng("f320")))
+        return
+    cx.rule("F320 witness: the compiler of this source tree compares the number of leaf-list defaults with max-elements; the module must be refused")
+    r = vc.run_impl(cx, HARNESS, [s], []).get("S0", ["err", "NoReply"])
+    cx.count(("f320", s.name), True, "F320 witness refused by the compiler" if r[:2] == ["err", "BadSchema"] else "F320 witness NOT refused")
+    if r[:2] != ["err", "BadSchema"]:
+        cx.fail(COMP, "the source has the F320 check but the module with more leaf-list defaults than max-elements compiles (%s)" % " ".join(r[:2]),
+                dict(vc.schema_payload(s), law="f320-compile", features=features(s)))
 
 
 PRUNED = ("drop-mandatory", "drop-choice", "below-min")
@@ -220,7 +252,8 @@ def operations(cx, cases):
       (V) the all-state variant the generator computes (validgen.state_variant) against the model's (`opsvariant`), per schema."""
     rng = cx.sub_rng("ops")
     pick = [c for c in cases if getattr(c.s, "yang", None) and not isinstance(c.s, vc.ReplaySchema)
-            and c.kind not in ("state-node", "missing-key") and not any(getattr(n, "when", None) for n in c.s.nodes)]
+            and c.kind not in ("state-node", "missing-key") and not any(getattr(n, "when", None) for n in c.s.nodes)
+            and getattr(c.s, "_origin", None) != "witness-F320"]       # F320 is recorded for datastore validation (law iff)
     rng.shuffle(pick)
     pick = pick[:cx.n(1500, 12000)]
     cx.rule("ops: %d of the instances above (valid and singly mutated) sent as rpc input, rpc output (reply) and notification content, XML "
@@ -367,12 +400,12 @@ def hyp_count(cx, hy, accepted):
     v = "valid" if accepted else "invalid"
     if on("wf", "plain", "nouniq", "good", "bounds"):
         cx.c02_hyp["validate_ok_iff_valid (plain): " + v] += 1
-    if on("wf", "full", "nouniq", "fixed", "good", "bounds"):
-        cx.c02_hyp["validate_ok_iff_valid_full: " + v] += 1
-        if on("keysfirst"):
+    if on("wf", "full", "uniqok", "fixed", "good", "bounds"):
+        cx.c02_hyp["validate_ok_iff_valid_full: %s%s" % (v, "" if on("nouniq") else " (schema with unique)")] += 1
+        if on("keysfirst", "uniqwf"):
             cx.c02_hyp["verdict_order_independent: " + v] += 1
     else:
-        why = [n for k, n in (("wf", "table/tree view"), ("full", "schema not FullSane"), ("nouniq", "unique statement"),
+        why = [n for k, n in (("wf", "table/tree view"), ("full", "schema not FullSane"), ("uniqok", "unique paths not UniqPathsOk"),
                               ("fixed", "F180 variant"), ("good", "default-flagged node in the instance (empty non-presence container)"),
                               ("bounds", "bounds")) if h.get(k) != "1"]
         cx.c02_hyp["outside validate_ok_iff_valid_full: " + " + ".join(why)] += 1
